@@ -17,7 +17,17 @@ from yabgp.message.route_refresh import RouteRefresh  # noqa: E402
 from yabgp.common import constants as C          # noqa: E402
 import wire_map as M                             # noqa: E402
 
-NAMES = dict(C.WELL_KNOW_COMMUNITY_INT_2_STR)
+# Names of well-known communities: the decoder's own table tells HOW it spells a name, the IANA registry ("BGP Well-known
+# Communities", RFC 1997 / 3765 / 7611 / 7999 / 8326 / 9494 ...) tells WHICH value a name belongs to.  A value whose name in
+# the decoder's table is not (a spelling of) its registered name is expected in its numeric form.
+IANA_WELL_KNOWN = {
+    0xFFFF0000: ('GRACEFUL_SHUTDOWN', 'PLANNED_SHUT'), 0xFFFF0001: ('ACCEPT_OWN',), 0xFFFF0002: ('ROUTE_FILTER_TRANSLATED_V4',),
+    0xFFFF0003: ('ROUTE_FILTER_V4',), 0xFFFF0004: ('ROUTE_FILTER_TRANSLATED_V6',), 0xFFFF0005: ('ROUTE_FILTER_V6',),
+    0xFFFF0006: ('LLGR_STALE',), 0xFFFF0007: ('NO_LLGR',), 0xFFFF0008: ('ACCEPT_OWN_NEXTHOP',), 0xFFFF0009: ('STANDBY_PE',),
+    0xFFFF029A: ('BLACKHOLE',), 0xFFFFFF01: ('NO_EXPORT',), 0xFFFFFF02: ('NO_ADVERTISE',), 0xFFFFFF03: ('NO_EXPORT_SUBCONFED',),
+    0xFFFFFF04: ('NOPEER', 'NO_PEER')}
+NAMES = {v: n for v, n in C.WELL_KNOW_COMMUNITY_INT_2_STR.items()
+         if v not in IANA_WELL_KNOWN or n.upper().replace('-', '_') in IANA_WELL_KNOWN[v]}
 
 
 def diff(exp, got):
@@ -273,6 +283,8 @@ def run_enc_vector(i, v):
     u = v['u']
     if v['sub'] == 'srpol':
         cls = 'srpol-%s-l%d-s%s' % (u['enc'], len(u['lists']), '.'.join(str(len(sl['segs'])) for sl in u['lists']))
+    elif v['sub'] == 'v6ll':
+        cls = 'v6ll-%s-n%d' % (u['ll'], len(u['ps']))
     elif v['sub'] == 'evpn5':
         cls = 'evpn5-%s-p%d.%d-gw%d' % ('reach' if u['reach'] else 'unreach', len(u['pa']), u['pl'], len(u['gw']))
     elif v['sub'] == 'pmsievpn':
